@@ -197,6 +197,9 @@ func (c *Ctx) resolve(v ssa.Value) ssa.Value {
 			if esc || len(stores) != 1 {
 				return v
 			}
+			if !c.storeReaches(stores[0], x) {
+				return v
+			}
 			v = stores[0].Val
 		default:
 			return v
@@ -501,4 +504,45 @@ func (c *Ctx) edgeLit(b *ssa.BasicBlock, succ int) (Lit, bool) {
 		l = l.Neg()
 	}
 	return l, true
+}
+
+// instrDominates reports whether instruction a is executed before b on every
+// path reaching b (same function).
+func instrDominates(a, b ssa.Instruction) bool {
+	ba, bb := a.Block(), b.Block()
+	if ba == nil || bb == nil || ba.Parent() != bb.Parent() {
+		return false
+	}
+	if ba == bb {
+		for _, in := range ba.Instrs {
+			if in == a {
+				return true
+			}
+			if in == b {
+				return false
+			}
+		}
+		return false
+	}
+	return ba.Dominates(bb)
+}
+
+// storeReaches: the single store st to a variable cell is guaranteed to have
+// happened before the load ld: it dominates the load, or — when the load is
+// inside a closure — dominates the creation of that closure (chain).
+func (c *Ctx) storeReaches(st *ssa.Store, ld ssa.Instruction) bool {
+	sf := st.Parent()
+	var at ssa.Instruction = ld
+	for i := 0; i < 6; i++ {
+		f := at.Parent()
+		if f == sf {
+			return instrDominates(st, at)
+		}
+		mc := c.closureSite[f]
+		if mc == nil {
+			return false
+		}
+		at = mc
+	}
+	return false
 }
